@@ -886,7 +886,7 @@ func ToOCISpec(c Container) *rspec.Spec {
 
 // FromOCISpec projects a spec; cdi are the names handed to the injector.
 func FromOCISpec(s *rspec.Spec, cdi []string) Oci {
-	out := Oci{Container: Container{}.Norm(), Cdi: append(Strs{}, cdi...), Mord: Strs{}}
+	out := Oci{Container: Container{}.Norm(), Cdi: append(Strs{}, cdi...), Mord: Strs{}, Eord: Strs{}}
 	out.Args, out.Rlim = Strs{}, KVs{}
 	if s == nil {
 		return out
@@ -898,6 +898,7 @@ func FromOCISpec(s *rspec.Spec, cdi []string) Oci {
 		for _, e := range p.Env {
 			k, v := splitEnv(e)
 			put(out.Env, k, v)
+			out.Eord = append(out.Eord, e)
 		}
 		out.Args = append(out.Args, p.Args...)
 		for _, l := range p.Rlimits {
